@@ -59,6 +59,9 @@ def table():
     sw('transpose()', lambda x: a.transpose(x), numpy.transpose, ((3, 2),), view=True)
     sw('reshape[6]', lambda x: a.reshape(x, (6,)), lambda v: v.reshape((6,)), ((3, 2), (6,), (1, 6)))
     sw('reshape[2,3]', lambda x: x.reshape((2, 3)), lambda v: v.reshape((2, 3)), ((3, 2), (6,)))
+    # the new shape as NumPy accepts it: a plain int, an integer taken from an array (numpy.integer), a list
+    sw('reshape[int 6]', lambda x: a.reshape(x, 6), lambda v: v.reshape(6), ((3, 2),)); sw('reshape[numpy.int64 6]', lambda x: x.reshape(numpy.int64(6)), lambda v: v.reshape(numpy.int64(6)), ((3, 2), (6,)))
+    sw('reshape[list 2,3]', lambda x: a.reshape(x, [2, 3]), lambda v: v.reshape([2, 3]), ((3, 2), (6,))); sw('reshape[numpy ints 2,3]', lambda x: x.reshape((numpy.int64(2), numpy.int32(3))), lambda v: v.reshape((2, 3)), ((6,),))
     for ax in (None, 0, 1, -1, -2):
         sw('sum[axis=%s]' % ax, lambda x, ax=ax: a.sum(x, axis=ax), lambda v, ax=ax: numpy.sum(v, axis=ax), ((3, 2), (2, 2, 3)))
     sw('sum[1d]', lambda x: a.sum(x), numpy.sum, ((3,),))
